@@ -17,6 +17,11 @@ RULE = ("every byte string over {CR,LF,'.','a'} up to length %s (exhaustive; rea
         "placed at every offset across the 1024-byte refill of inbuf; oracles on the implementation's output: completed transmissions - terminator once, "
         "no bare LF, stuffed lines, dblast(out)=rfcDecode(out)=canon(in), nothing left unflushed; refused/failed/dropped ones (C06_prefix_no_terminator) - "
         "flushed+buffered bytes are a prefix of the encoder output, no bare LF, no lone-dot line; every non-failing split gives the same wire; "
+        "refusal (C06_refused_canon): without a failing call the message is refused iff canon(in) is non-empty and does not end in LF; "
+        "envelope commands (C06_envelope_one_line): every string over {a,@,.,CR,LF,quote,backslash,SP} up to length 4/5 as sender and as recipient, every byte value "
+        "1..255 at the start/middle/end of the box and in the host part, random addresses up to 440 bytes, through the program's own addrmangle() and smtp() "
+        "(sender/reciplist/helohost as main() fills them) against a scripted server (timeoutread.o replaced): the write()s on the socket must be HELO, "
+        "MAIL FROM:<mangle sender>, RCPT TO:<mangle rcpt>, DATA, rblast(msg), QUIT as the model says, and (oracle) the MAIL/RCPT write is exactly one line iff the address has no CR/LF; "
         "non-trivial = distinct input containing a CR or a dot at a line start")
 
 PREFIXES = ("0", "1", "2", "3", "1023/1", "1024/1023")
@@ -43,15 +48,15 @@ def builder(s):
     """qmail-remote as a program object of its own (its writable data in sections the harness restores before every case:
     every case starts from the program's own static initialisers - ssin, smtpto, inbuf, smtptobuf, any static);
     read / write / _exit interposed at link level, timeoutwrite.o replaced by the harness's scripted socket"""
-    obj, extra = s.prog_object("qr", "qmail-remote.c", "qmail-remote", keep_globals=["blast", "ssin", "smtpto", "smtpfd"],
-                               objs_exclude=["timeoutwrite.o"])
+    obj, extra = s.prog_object("qr", "qmail-remote.c", "qmail-remote", keep_globals=["blast", "ssin", "smtpto", "smtpfd", "smtp", "addrmangle", "sender", "reciplist", "helohost"],
+                               objs_exclude=["timeoutwrite.o", "timeoutread.o"])
     return s.cc(os.path.join(VERIF, "harness/c06_blast.c"), os.path.join(s.dir, "h_c06"),
                 extra="%s %s -Wl,--wrap=read -Wl,--wrap=write -Wl,--wrap=_exit" % (obj, extra))
 
 
-run_standard("C06", "Nq.Props.C06", "drv_c06", "harness/c06_blast.c", "qmail-remote", ["timeoutwrite.o"],
+run_standard("C06", "Nq.Props.C06", "drv_c06", "harness/c06_blast.c", "qmail-remote", ["timeoutwrite.o", "timeoutread.o"],
              "9 4000", "12 60000", {"quick": RULE % (9, 5), "thorough": RULE % (12, 8)},
-             "rblast (Nq/SmtpOut.lean) and oblast over Nq.Substdio (Nq/SmtpIO.lean) vs qmail-remote.c blast() over substdi.c/substdo.c/safewrite",
+             "rblast (Nq/SmtpOut.lean) and oblast over Nq.Substdio (Nq/SmtpIO.lean) vs qmail-remote.c blast() over substdi.c/substdo.c/safewrite; mangle/cmdLine (Nq/SmtpEnv.lean) vs qmail-remote.c addrmangle()/smtp() + quote.c",
              builder=builder, mutate=mutate, alphabet=b"\r\n.a", stdin_prefixes=PREFIXES,
              assumptions=["the value-level substdio model (Nq/Substdio.lean: buffers are byte lists, not the arrays) is tied to substdi.c/substdo.c by running "
                           "the real substdio under the read/write plans and comparing wire, buffered bytes and write() counts (and by C20's harness); "
